@@ -27,6 +27,7 @@ EXPLANATION = (
     "of 'all four bounds > 0' and pub/plb >= 10, evaluated only for undetermined (NaN) flags, and the optimiser passes all-zero flags when "
     "nonlinear_scaling is off. R4 integer spellings are cast to float before the in-place log stores (shared with C08-R3). The round-trip "
     "accuracy 1e-9 and behaviour 'slightly outside' the box as numbers are not decided."
+    " R6 the internal boxes are g(<pristine copy of the bound>), never g of a probe copy with the infinities replaced."
 )
 
 
